@@ -9,8 +9,8 @@ def J(scn, bound, deadline=60, **kw):
 
 PLANS = {
     "C01": {
-        "quick": [J("pubflow", "p=1,f=1,s=1", 30), J("pubflow", "f=2", 60), J("pubflowvol", "f=1,s=1", 60), J("pubflowvol", "f=2", 60), J("pubflowalias", "f=2", 40)],
-        "thorough": [J("pubflow", "p=2,f=2,s=2", 900), J("pubflowvol", "p=1,f=2,s=1", 400), J("pubflowalias", "p=1,f=2,s=1", 400)],
+        "quick": [J("pubflow", "p=1,f=1,s=1", 30), J("pubflow", "f=2", 60), J("pubflowvol", "f=1,s=1", 60), J("pubflowvol", "f=2", 60), J("pubflowalias", "f=2", 40), J("restartdeliver", "c=2,s=1", 40)],
+        "thorough": [J("pubflow", "p=2,f=2,s=2", 900), J("pubflowvol", "p=1,f=2,s=1", 400), J("pubflowalias", "p=1,f=2,s=1", 400), J("restartdeliver", "c=3,f=1,s=1", 400)],
     },
 }
 
@@ -20,12 +20,12 @@ PLANS["C02"] = {
 }
 
 PLANS["C03"] = {
-    "quick": [J("qos2out", "f=1,c=1", 60), J("qos2out", "f=2", 60), J("qos2out", "c=2,s=1", 60), J("pubflowvol", "f=1,s=1", 40), J("restartwrap", "c=2", 40), J("qos2hold", "c=2", 30)],
-    "thorough": [J("qos2out", "f=3,c=2,p=1", 900)],
+    "quick": [J("qos2out", "f=1,c=1", 60), J("qos2out", "f=2", 60), J("qos2out", "c=2,s=1", 60), J("pubflowvol", "f=1,s=1", 40), J("restartwrap", "c=2", 40), J("qos2hold", "c=2", 30), J("qos2mix", "f=2", 40)],
+    "thorough": [J("qos2out", "f=3,c=2,p=1", 900), J("qos2mix", "p=1,f=3,s=1", 400)],
 }
 PLANS["C05"] = {
-    "quick": [J("puborder", "p=1,f=1,s=1", 90), J("restartwrap", "c=1,f=1", 40), J("pubflowvol", "f=1,s=1", 60)],
-    "thorough": [J("puborder", "p=3,f=2,s=2", 900), J("restartwrap", "c=2,f=1,p=1", 400), J("pubflowvol", "f=2,s=1", 300)],
+    "quick": [J("puborder", "p=1,f=1,s=1", 90), J("restartwrap", "c=1,f=1", 40), J("pubflowvol", "f=1,s=1", 60), J("restartdeliver", "c=2,s=1", 40), J("qos2hold", "c=2", 30)],
+    "thorough": [J("puborder", "p=3,f=2,s=2", 900), J("restartwrap", "c=2,f=1,p=1", 400), J("pubflowvol", "f=2,s=1", 300), J("restartdeliver", "c=3,f=1,s=1", 400), J("qos2hold", "c=2,s=1,p=1", 200)],
 }
 
 PLANS["C08"] = {
@@ -33,8 +33,8 @@ PLANS["C08"] = {
     "thorough": [J("writers", "p=2,f=2,s=1", 900), J("writers2", "p=3,f=1,s=1,t=1", 600), J("writers2", "p=1,f=2,s=1", 400), J("pingpair", "p=2,f=1,s=2", 300), J("race-client", "thorough", 300, test="TestE3", shards=1, race=True)],
 }
 PLANS["C10"] = {
-    "quick": [J("wedge", "p=1,f=1", 45), J("wedge", "f=2", 45), J("wedgeburst", "p=1,f=1", 45), J("wedgeblock", "f=2", 60)],
-    "thorough": [J("wedge", "p=2,f=3,s=2", 900), J("wedgeburst", "p=2,f=2,s=1", 400), J("wedgeblock", "p=1,f=2,s=1", 400)],
+    "quick": [J("wedge", "p=1,f=1", 45), J("wedge", "f=2", 45), J("wedgeburst", "p=1,f=1", 45), J("wedgeblock", "f=2", 60), J("wedgebig", "f=2", 40)],
+    "thorough": [J("wedge", "p=2,f=3,s=2", 900), J("wedgeburst", "p=2,f=2,s=1", 400), J("wedgeblock", "p=1,f=2,s=1", 400), J("wedgebig", "p=1,f=3,s=1", 300)],
 }
 PLANS["C11"] = {
     "quick": [J("reqresp", "p=1,f=1,sel=1", 60), J("reqresp", "f=1,s=2", 40), J("hostile", "f=1", 40), J("connectretry", "f=2", 40), J("c11-idwrap", "quick", 120, test="TestE3", shards=1)],
@@ -54,7 +54,7 @@ PLANS["C06"] = {
     "thorough": [J("inbound32", "f=2", 600), J("inbound32skip", "f=2", 600), J("inbound64", "f=2", 600), J("inboundctl", "f=3", 600), J("inboundcut", "f=3", 600), J("c06-lengths", "thorough", 300, test="TestE3", shards=1)],
 }
 PLANS["C07"] = {
-    "quick": [J("acktiming", "p=1,f=1,s=1", 90), J("qos2in", "f=1,c=1", 40), J("ackresend", "p=1,f=1,s=1", 40)],
+    "quick": [J("acktiming", "p=1,f=1,s=1", 90), J("qos2in", "f=1,c=1", 40), J("ackresend", "p=1,f=1,s=1", 40), J("ackresend", "f=2", 40)],
     "thorough": [J("acktiming", "p=2,f=2,s=2", 900), J("qos2in", "f=2,c=1", 400), J("ackresend", "p=2,f=2,s=1", 400)],
 }
 
